@@ -229,6 +229,10 @@ def gen_wellformed(rng):
                 nr, nc = pr * div + 1, pc * div + 1
                 if nr < 3 or nc < 3 or nr > 60 or nc > 60:
                     continue
+                # extents must stay multiples of 0.001"
+                if any((v * 1000).denominator != 1 for v in (ex['s'] + r0 * ex['dlat'], ex['e'] + c0 * ex['dlon'],
+                                                              ex['s'] + (r0 + pr) * ex['dlat'], ex['e'] + (c0 + pc) * ex['dlon'])):
+                    continue
                 # siblings under the same parent must not overlap: only one child per parent here
                 if any(x['parent'] == par['name'] for x in subs):
                     continue
@@ -272,7 +276,10 @@ def malform(rng, spec):
     elif kind == 'truncate_hdr':
         spec['truncate'] = rng.randint(0, 352)
     elif kind == 'bad_date':
-        g[rng.choice(['created', 'updated'])] = rng.choice(['31022020', '00012020', '01132020', 'ABCDEFGH', '', '29022019', '01010000', '2020-1-1'])
+        g[rng.choice(['created', 'updated'])] = rng.choice(
+            ['31022020', '00012020', '01132020', 'ABCDEFGH', '', '29022019', '01010000', '2020-1-1', '150620', '1122020', ' 1012020',
+             '3 12020', '29021900', '29022000', '1 1 2020'] +
+            [''.join(rng.choice('0123459 ') for _ in range(rng.randint(5, 8))) for _ in range(15)])
     elif kind == 'count_small':
         g['count'] = max(0, len(g['nodes']) - rng.randint(1, 5))
     elif kind == 'count_big':
